@@ -70,6 +70,12 @@ pub fn replay(path: &str) -> i32 {
     for l in &now {
         println!("  {l}");
     }
+    if j["kind"].as_str() == Some("none") {
+        // a few classes (hand-built entries, io::Error drivers, entry points of the loader) record the case in
+        // words only: there is nothing to run here
+        println!("NO STAND-ALONE REPLAY for this class: the case is described above; run `./check {} quick` to see whether it still fails", j["property"].as_str().unwrap_or("<id>"));
+        return 1;
+    }
     if now == recorded {
         println!("REPRODUCES: the subject still behaves as recorded in the violation");
         1
